@@ -1,0 +1,54 @@
+//! Facade for the HTTP properties (C12): the real request handler, the real
+//! resource registry and constructors for real request processors.
+use std::path::PathBuf;
+use std::sync::Arc;
+
+use hyper::{Body, Request, Response};
+use tokio::sync::mpsc;
+
+pub use crate::http::{PercentDecodedPath, ProcessRequest, Resources};
+pub use crate::metrics::Collection as MetricsCollection;
+pub use crate::units::verif_mrt_file_in_http::QueueEntry;
+
+/// `Server::handle_request` of `src/http.rs`.
+pub async fn handle_request(
+    req: Request<Body>,
+    metrics: &MetricsCollection,
+    resources: &Resources,
+) -> Response<Body> {
+    crate::http::verif_hooks::handle_request(req, metrics, resources).await
+}
+
+/// Sets the flag `Server::run` copies from `compress_responses` in the config.
+pub fn set_compress_responses(resources: &mut Resources, on: bool) {
+    crate::http::verif_hooks::set_compress_responses(resources, on)
+}
+
+/// The `PrefixesApi` of a physical RIB unit with an empty store.
+pub fn mk_physical_prefixes_api(
+    http_api_path: &str,
+    shortest_prefix_ipv4: u8,
+    shortest_prefix_ipv6: u8,
+    ingresses: Arc<crate::ingress::Register>,
+) -> Arc<dyn ProcessRequest> {
+    crate::units::rib_unit::verif_hooks_http::mk_physical_prefixes_api(
+        http_api_path,
+        shortest_prefix_ipv4,
+        shortest_prefix_ipv6,
+        ingresses,
+    )
+}
+
+/// The queue-endpoint processor of an `mrt-file-in` unit and the receiving
+/// end of its queue (the harness plays the unit's queue consumer).
+pub fn mk_mrt_processor(
+    http_api_path: &str,
+    update_path: Option<PathBuf>,
+    queue_len: usize,
+) -> (Arc<dyn ProcessRequest>, mpsc::Receiver<QueueEntry>) {
+    crate::units::verif_mrt_file_in_http::mk_processor(
+        http_api_path,
+        update_path,
+        queue_len,
+    )
+}
